@@ -2808,6 +2808,27 @@ def check_C16(tier, seed):
 (append (list (tick 17 1)) nil)
 (if-let ((b (tick 18 nil))) b (tick 19 1) (list 2 (tick 20 2)))
 """))
+    # forms handed to macros and substituted by , and ,@ in every template position: each keeps its own extent
+    progs.append(('', """(defmacro m-if (c a b) `(if ,c ,a ,b))
+(defmacro m-let (v e &rest body)
+  `(let ((,v ,e)) ,@body))
+(defmacro m-call (f &rest args) `(,f ,@args))
+(defmacro m-twice (e) `(progn ,e
+    ,e))
+(defmacro m-dot (a b) `(cons ,a . (,b)))
+(defmacro m-nest (e) `(m-if t ,e (m-call list ,e)))
+(m-if (tick 1 t) (tick 2 1)
+   (tick 3 2))
+(m-if (tick 4 nil) (tick 5 1) (list (tick 6 2)))
+(m-let q (tick 7 1) (tick 8 q)
+  (m-if q (tick 9 q) 0))
+(m-call list (tick 10 1) (m-call car (list (tick 11 2))))
+(m-twice (tick 12 1))
+(m-dot (tick 13 1)
+       (tick 14 2))
+(m-nest (list (tick 15 1)))
+(let ((forms (list 1 2))) `(a ,(tick 16 forms) ,@(list (tick 17 1)) . ,(tick 18 2)))
+"""))
     base = []
     for i, (defs, body) in enumerate(progs):
         c = Case('b%d' % i)
